@@ -9,7 +9,7 @@ Local Open Scope N_scope.
 (** * consistency of the chain columns reached by valid chains *)
 Definition cinv1 (x : ch1) : Prop :=
   match h_st x with
-  | Pending | Rejected => h_formed x = false /\ h_res x = None
+  | Pending | Rejected => h_formed x = false /\ h_res x = None /\ h_conf x = 0
   | Active | Failed => h_formed x = true /\ h_res x = None
   | Successful => h_formed x = true /\ h_res x <> None
   end.
@@ -230,3 +230,176 @@ Proof. unfold cinv1, heqv1, q_rej1. c1d c; h1 x; cbn; intros; crush; try (eexist
 Lemma rej2_succeeds hm c x : cinv2 x -> heqv2 (proj2 c) x -> q_rej2 hm c = true ->
   exists r, rej2 c = ROk r.
 Proof. unfold cinv2, heqv2, q_rej2. c2d c; h2 x; cbn; intros; crush; try (eexists; reflexivity). Qed.
+
+(** * lists of changes: everything a block carries for one contract *)
+Lemma spec_evs1_cons h e l x : spec_evs1 h (e :: l) x = spec_evs1 h l (spec_ev1 h e x).
+Proof. reflexivity. Qed.
+Lemma spec_evs2_cons i e l x : spec_evs2 i (e :: l) x = spec_evs2 i l (spec_ev2 i e x).
+Proof. reflexivity. Qed.
+
+Lemma cinv1_evs h l : forall x, cinv1 x -> valid_evs1 h l x -> cinv1 (spec_evs1 h l x).
+Proof.
+  induction l as [|e t IH]; intros x Hc Hv; [exact Hc|]. destruct Hv as [Hv Ht].
+  rewrite spec_evs1_cons. apply IH; [apply cinv1_ev; assumption|exact Ht].
+Qed.
+Lemma cinv2_evs i l : forall x, cinv2 x -> valid_evs2 i l x -> cinv2 (spec_evs2 i l x).
+Proof.
+  induction l as [|e t IH]; intros x Hc Hv; [exact Hc|]. destruct Hv as [Hv Ht].
+  rewrite spec_evs2_cons. apply IH; [apply cinv2_ev; assumption|exact Ht].
+Qed.
+
+Lemma formed_after_evs1 h l : forall x, cinv1 x -> valid_evs1 h l x -> l <> [] ->
+  h_formed (spec_evs1 h l x) = true.
+Proof.
+  induction l as [|e t IH]; intros x Hc Hv Hne; [congruence|]. destruct Hv as [Hv Ht].
+  rewrite spec_evs1_cons. destruct t as [|e' t'].
+  - apply formed_after_ev1; assumption.
+  - apply IH; [apply cinv1_ev; assumption|exact Ht|discriminate].
+Qed.
+Lemma formed_after_evs2 i l : forall x, cinv2 x -> valid_evs2 i l x -> l <> [] ->
+  g_conf (spec_evs2 i l x) <> None.
+Proof.
+  induction l as [|e t IH]; intros x Hc Hv Hne; [congruence|]. destruct Hv as [Hv Ht].
+  rewrite spec_evs2_cons. destruct t as [|e' t'].
+  - apply formed_after_ev2; assumption.
+  - apply IH; [apply cinv2_ev; assumption|exact Ht|discriminate].
+Qed.
+
+Lemma heqv1_evs h l : forall y x, cinv1 x -> heqv1 y x -> valid_evs1 h l x ->
+  heqv1 (spec_evs1 h l y) (spec_evs1 h l x).
+Proof.
+  induction l as [|e t IH]; intros y x Hc Hq Hv; [exact Hq|]. destruct Hv as [Hv Ht].
+  rewrite !spec_evs1_cons. apply IH; [apply cinv1_ev; assumption|apply heqv1_ev; assumption|exact Ht].
+Qed.
+Lemma heqv2_evs i l : forall y x, cinv2 x -> heqv2 y x -> valid_evs2 i l x ->
+  heqv2 (spec_evs2 i l y) (spec_evs2 i l x).
+Proof.
+  induction l as [|e t IH]; intros y x Hc Hq Hv; [exact Hq|]. destruct Hv as [Hv Ht].
+  rewrite !spec_evs2_cons. apply IH; [apply cinv2_ev; assumption|apply heqv2_ev; assumption|exact Ht].
+Qed.
+
+(* the shapes, one by one *)
+Ltac shapes1 l :=
+  destruct l as [|[|o n| |] [|[|o2 n2| |] [|e3 t3]]]; cbn [shape1]; try tauto;
+  try match goal with |- context [match ?o with 0 => _ | N.pos _ => _ end] => destruct o; try tauto end.
+Ltac shapes2 l :=
+  destruct l as [|[r|o n| | |] [|[r2|o2 n2| | |] [|e3 t3]]]; cbn [shape2 is_res2]; try tauto;
+  try (intros; discriminate).
+
+(* RevertContracts goes through the changes of a contract in the order of ApplyContracts (not in
+   reverse): for the combinations a block may carry that still undoes them *)
+Lemma inverse1_evs h l x : cinv1 x -> shape1 l -> valid_evs1 h l x ->
+  heqv1 (rspec_evs1 l (spec_evs1 h l x)) x.
+Proof.
+  intros Hc Hs Hv. revert Hs Hv. shapes1 l; intros Hs Hv; cbn in Hv; unfold rspec_evs1, spec_evs1; cbn [fold_left];
+    try (apply heqv1_refl); try (apply inverse1; [assumption|exact (Logic.proj1 Hv)]).
+  revert Hc Hv. unfold cinv1, heqv1. h1 x; crush.
+Qed.
+Lemma inverse1_evs_exact h l x : cinv1 x -> shape1 l -> valid_evs1 h l x -> h_st x <> Rejected ->
+  rspec_evs1 l (spec_evs1 h l x) = x.
+Proof.
+  intros Hc Hs Hv. revert Hs Hv. shapes1 l; intros Hs Hv Hr; cbn in Hv; unfold rspec_evs1, spec_evs1; cbn [fold_left];
+    try reflexivity; try (apply inverse1_exact; [assumption|exact (Logic.proj1 Hv)|assumption]).
+  revert Hc Hv Hr. unfold cinv1. h1 x; crush.
+Qed.
+Lemma inverse2_evs i l x : cinv2 x -> shape2 l -> valid_evs2 i l x ->
+  heqv2 (rspec_evs2 l (spec_evs2 i l x)) x.
+Proof.
+  intros Hc Hs Hv. revert Hs Hv. shapes2 l; intros Hs Hv; cbn in Hv; unfold rspec_evs2, spec_evs2; cbn [fold_left];
+    try (apply heqv2_refl); try (apply inverse2; [assumption|exact (Logic.proj1 Hv)]);
+    revert Hc Hv; unfold cinv2, heqv2; h2 x; crush.
+Qed.
+Lemma inverse2_evs_exact i l x : cinv2 x -> shape2 l -> valid_evs2 i l x -> g_st x <> R2 ->
+  rspec_evs2 l (spec_evs2 i l x) = x.
+Proof.
+  intros Hc Hs Hv. revert Hs Hv. shapes2 l; intros Hs Hv Hr; cbn in Hv; unfold rspec_evs2, spec_evs2; cbn [fold_left];
+    try reflexivity; try (apply inverse2_exact; [assumption|exact (Logic.proj1 Hv)|assumption]);
+    revert Hc Hv Hr; unfold cinv2; h2 x; crush.
+Qed.
+
+(* the row transitions of a list of changes, one after the other *)
+Fixpoint rows_ok1 (h : N) (l : list pev1) (c : c1) : Prop :=
+  match l with [] => True | e :: t => exists r, row1_of h e c = ROk r /\ rows_ok1 h t (fst r) end.
+Fixpoint rrows_ok1 (l : list pev1) (c : c1) : Prop :=
+  match l with [] => True | e :: t => exists r, rrow1_of e c = ROk r /\ rrows_ok1 t (fst r) end.
+Fixpoint rows_ok2 (i : idx) (l : list pev2) (c : c2) : Prop :=
+  match l with [] => True | e :: t => exists r, row2_of i e c = ROk r /\ rows_ok2 i t (fst r) end.
+Fixpoint rrows_ok2 (l : list pev2) (c : c2) : Prop :=
+  match l with [] => True | e :: t => exists r, rrow2_of e c = ROk r /\ rrows_ok2 t (fst r) end.
+
+Definition fstok {A B} (r : rs (A * B)) (d : A) : A := match r with ROk p => fst p | _ => d end.
+
+Definition applyl1 (h : N) (l : list pev1) (c : c1) : c1 := fold_left (fun c e => fstok (row1_of h e c) c) l c.
+Definition revertl1 (l : list pev1) (c : c1) : c1 := fold_left (fun c e => fstok (rrow1_of e c) c) l c.
+Definition applyl2 (i : idx) (l : list pev2) (c : c2) : c2 := fold_left (fun c e => fstok (row2_of i e c) c) l c.
+Definition revertl2 (l : list pev2) (c : c2) : c2 := fold_left (fun c e => fstok (rrow2_of e c) c) l c.
+
+Lemma applyl1_proj h l : forall c, rows_ok1 h l c ->
+  proj1 (applyl1 h l c) = spec_evs1 h l (proj1 c) /\ stat1 (applyl1 h l c) = stat1 c.
+Proof.
+  induction l as [|e t IH]; intros c H; [auto|]. destruct H as (r & Hr & Ht).
+  unfold applyl1. cbn [fold_left]. rewrite Hr. cbn [fstok]. destruct (row1_proj _ _ _ _ Hr) as [A B].
+  destruct (IH _ Ht) as [A2 B2]. unfold applyl1 in A2, B2. rewrite A2, B2, spec_evs1_cons, A, B. auto.
+Qed.
+Lemma revertl1_proj l : forall c, rrows_ok1 l c ->
+  proj1 (revertl1 l c) = rspec_evs1 l (proj1 c) /\ stat1 (revertl1 l c) = stat1 c.
+Proof.
+  induction l as [|e t IH]; intros c H; [auto|]. destruct H as (r & Hr & Ht).
+  unfold revertl1. cbn [fold_left]. rewrite Hr. cbn [fstok]. destruct (rrow1_proj _ _ _ Hr) as [A B].
+  destruct (IH _ Ht) as [A2 B2]. unfold revertl1 in A2, B2. rewrite A2, B2. unfold rspec_evs1. cbn [fold_left].
+  rewrite A, B. auto.
+Qed.
+Lemma applyl2_proj i l : forall c, rows_ok2 i l c ->
+  proj2 (applyl2 i l c) = spec_evs2 i l (proj2 c) /\ stat2 (applyl2 i l c) = stat2 c.
+Proof.
+  induction l as [|e t IH]; intros c H; [auto|]. destruct H as (r & Hr & Ht).
+  unfold applyl2. cbn [fold_left]. rewrite Hr. cbn [fstok]. destruct (row2_proj _ _ _ _ Hr) as [A B].
+  destruct (IH _ Ht) as [A2 B2]. unfold applyl2 in A2, B2. rewrite A2, B2, spec_evs2_cons, A, B. auto.
+Qed.
+Lemma revertl2_proj l : forall c, rrows_ok2 l c ->
+  proj2 (revertl2 l c) = rspec_evs2 l (proj2 c) /\ stat2 (revertl2 l c) = stat2 c.
+Proof.
+  induction l as [|e t IH]; intros c H; [auto|]. destruct H as (r & Hr & Ht).
+  unfold revertl2. cbn [fold_left]. rewrite Hr. cbn [fstok]. destruct (rrow2_proj _ _ _ Hr) as [A B].
+  destruct (IH _ Ht) as [A2 B2]. unfold revertl2 in A2, B2. rewrite A2, B2. unfold rspec_evs2. cbn [fold_left].
+  rewrite A, B. auto.
+Qed.
+
+Lemma rows1_succeed h l : forall c x, cinv1 x -> heqv1 (proj1 c) x -> valid_evs1 h l x -> rows_ok1 h l c.
+Proof.
+  induction l as [|e t IH]; intros c x Hc Hq Hv; [exact I|]. destruct Hv as [Hv Ht].
+  destruct (row1_succeeds h e c x Hc Hq Hv) as [r Hr]. exists r. split; [exact Hr|].
+  apply (IH _ (spec_ev1 h e x)); [apply cinv1_ev; assumption| |exact Ht].
+  destruct (row1_proj _ _ _ _ Hr) as [A _]. rewrite A. apply heqv1_ev; assumption.
+Qed.
+Lemma rows2_succeed i l : forall c x, cinv2 x -> heqv2 (proj2 c) x -> valid_evs2 i l x -> rows_ok2 i l c.
+Proof.
+  induction l as [|e t IH]; intros c x Hc Hq Hv; [exact I|]. destruct Hv as [Hv Ht].
+  destruct (row2_succeeds i e c x Hc Hq Hv) as [r Hr]. exists r. split; [exact Hr|].
+  apply (IH _ (spec_ev2 i e x)); [apply cinv2_ev; assumption| |exact Ht].
+  destruct (row2_proj _ _ _ _ Hr) as [A _]. rewrite A. apply heqv2_ev; assumption.
+Qed.
+
+(* reverting: the row is what processing the changes produced *)
+Lemma rrows1_succeed h l c x : cinv1 x -> shape1 l -> valid_evs1 h l x -> proj1 c = spec_evs1 h l x ->
+  rrows_ok1 l c.
+Proof.
+  intros Hc Hs Hv. revert Hs Hv. shapes1 l; intros Hs Hv Hp; cbn in Hv; cbn [rrows_ok1].
+  - destruct (rrow1_succeeds h PForm1 c x Hc (Logic.proj1 Hv) Hp) as [r Hr]. exists r; auto.
+  - (* formation carrying a revision *)
+    revert Hc Hv Hp. unfold cinv1. c1d c; h1 x; cbn; intros; crush;
+      (eexists; split; [reflexivity|]; eexists; split; [reflexivity|exact I]).
+  - destruct (rrow1_succeeds h (PRev1 o n) c x Hc (Logic.proj1 Hv) Hp) as [r Hr]. exists r; auto.
+  - destruct (rrow1_succeeds h PSucc1 c x Hc (Logic.proj1 Hv) Hp) as [r Hr]. exists r; auto.
+  - destruct (rrow1_succeeds h PFail1 c x Hc (Logic.proj1 Hv) Hp) as [r Hr]. exists r; auto.
+Qed.
+Lemma rrows2_succeed i l c x : cinv2 x -> shape2 l -> valid_evs2 i l x -> proj2 c = spec_evs2 i l x ->
+  rrows_ok2 l c.
+Proof.
+  intros Hc Hs Hv. revert Hs Hv. shapes2 l; intros Hs Hv Hp; cbn in Hv; cbn [rrows_ok2];
+    try (match goal with |- exists r, rrow2_of ?e c = ROk r /\ True =>
+           destruct (rrow2_succeeds i e c x Hc (Logic.proj1 Hv) Hp) as [r0 Hr0]; exists r0; auto end);
+    (* revised and resolved in one block *)
+    revert Hc Hv Hp; unfold cinv2; c2d c; h2 x; cbn; intros; crush;
+      (eexists; split; [reflexivity|]; eexists; split; [reflexivity|exact I]).
+Qed.
